@@ -14,7 +14,8 @@ Shape B.  Three families of shards:
   an indirect reference: all subsets with <= 2 or >= k-1 indirect slots (thorough: all 2^k).
 * ``std14`` -- every name of the built-in metrics table (14 canonical faces and their 12 alternative names) as BaseFont
   without /Widths under three encodings, all 256 codes; alias -> canonical identity and frozen fingerprints of the table.
-* ``share`` -- two fonts in one document (Differences overlay must not leak into the shared base table); fonts of one
+* ``share`` -- (also) a PDFResourceManager(caching=False) reused for a second document whose font has the same object
+  number: the second document is read with its own font; two fonts in one document (Differences overlay must not leak into the shared base table); fonts of one
   /Font resource dictionary given partly as indirect references and partly as direct dictionaries, in every order.
 """
 from __future__ import annotations
@@ -80,6 +81,8 @@ TOUNI: List[Optional[Tuple[list, list]]] = [
     # one stream holding several begincmap .. endcmap sections (a map with supplements appended): all of them count
     ("sections", [([(b"\x41", "X")], []), ([(b"\x42", "Y"), (b"\x01", "Q")], [(b"\x61", b"\x63", "α")])]),
     ("sections", [([], [(b"\x30", b"\x32", ["A", "BC", "D"])]), ([(b"\x43", "ffi")], []), ([(b"\x7f", "Z")], [(b"\x80", b"\x82", "Ā")])]),
+    # entries whose destination is the empty string, on codes the encoding maps as well: the ToUnicode entry still wins
+    ([(b"\x42", ""), (b"\x43", "Y"), (b"\x61", ""), (b"\x01", "")], [(b"\x30", b"\x32", ["A", "", "C"])]),
     # blocks in which malformed entries stand between well-formed ones: a malformed entry is skipped (the codes it
     # names are not judged), every well-formed neighbour in the block still counts
     ("raw",
@@ -137,6 +140,8 @@ FONTFILES = [
     # encoding is then empty, which is not the same as absent (nothing may be filled in from StandardEncoding).
     ("vector", [(65, "G01"), (66, "G02"), (97, "g23"), (32, "G00")]),
     ("vector", []),
+    # the boundary codes 0, 1, 255 are codes; 256 and -1 are not
+    ("vector", [(0, "alpha"), (1, "beta"), (255, "gamma"), (256, "delta"), (-1, "epsilon"), (128, "Euro"), (127, "bullet")]),
 ]
 SPELL = ["direct", "indirect"]
 
@@ -157,8 +162,8 @@ BOUNDS = {"quick": {"deviations": 3, "shards": 96}, "thorough": {"deviations": 5
 
 META = {
     "rule": (
-        "font family: every choice vector over (subtype 4, base encoding 7, encoding form 2, Differences 11, ToUnicode 12 (two with several begincmap..endcmap sections, one with malformed entries between well-formed ones), "
-        "widths 14, Type3 FontMatrix 5, embedded Type 1 header 7 (two whose vector gives no code a Unicode value), spelling 2) with at most `deviations` non-default "
+        "font family: every choice vector over (subtype 4, base encoding 7, encoding form 2, Differences 11, ToUnicode 13 (two with several begincmap..endcmap sections, one with malformed entries between well-formed ones, one with empty destinations), "
+        "widths 14, Type3 FontMatrix 5, embedded Type 1 header 8 (two whose vector gives no code a Unicode value, one naming the boundary codes 0, 1, 255, 256, -1), spelling 2) with at most `deviations` non-default "
         "choices (default = Type1, WinAnsi name, no Differences, no ToUnicode, Widths from 32 + MissingWidth), minus the "
         "combinations that are not fonts (Type3 x standard-14, FontMatrix on non-Type3, FontFile on TrueType/Type3/"
         "standard-14, ...); each surviving vector is one case = one generated PDF in which all 256 codes are shown; "
@@ -999,6 +1004,69 @@ def jmodel_mixed(model):
     return [row + [m.get("mixed")] for row, m in zip(jmodel(model), model)]
 
 
+def glyphs_with(rm, pdf: bytes):
+    import io
+
+    from pdfminer.converter import PDFPageAggregator
+    from pdfminer.layout import LTChar
+    from pdfminer.pdfdocument import PDFDocument
+    from pdfminer.pdfinterp import PDFPageInterpreter
+    from pdfminer.pdfpage import PDFPage
+    from pdfminer.pdfparser import PDFParser
+
+    dev = PDFPageAggregator(rm, laparams=None)
+    ip = PDFPageInterpreter(rm, dev)
+    out = []
+    for page in PDFPage.create_pages(PDFDocument(PDFParser(io.BytesIO(pdf)))):
+        ip.process_page(page)
+        out += [(it.get_text(), it.adv) for it in dev.get_result() if isinstance(it, LTChar)]
+    return out
+
+
+NOCACHE_VECS = [dict(), dict(encoding=3, widths=1), dict(encoding=2, differences=1, widths=2), dict(subtype=1, widths=3)]
+
+
+def check_nocache(i: int, j: int):
+    """A PDFResourceManager(caching=False) used for document i and then for document j (same object numbers, other
+    font): the second document is read with its own font.  -> (pdfs, violations, outcome)"""
+    from pdfminer.pdfinterp import PDFResourceManager
+
+    (pa, _), (pb, mb) = build(_vec(**NOCACHE_VECS[i])), build(_vec(**NOCACHE_VECS[j]))
+    rm = PDFResourceManager(caching=False)
+    viol = []
+    try:
+        glyphs_with(rm, pa)
+        g = glyphs_with(rm, pb)
+    except Exception as e:  # noqa
+        return (pa, pb), [(f"C06/exception:{type(e).__name__}@nocache", -1, "512 glyphs", f"{type(e).__name__}: {e}", "raised")], ("exc",)
+    if len(g) != 256:
+        return (pa, pb), [("C06/glyph-count", -1, 256, len(g), "second document")], ("count", len(g))
+    for code, m in enumerate(mb):
+        if m["jt"] and g[code][0] != m["text"]:
+            viol.append(("C06/caching-off-still-answers-from-font-cache", code, m["text"], g[code][0], f"second document, text of code {code}"))
+        if m["jw"] and not R.close(g[code][1], m["adv"]):
+            viol.append(("C06/caching-off-still-answers-from-font-cache", code, float(m["adv"]), g[code][1], f"second document, advance of code {code}"))
+    return (pa, pb), viol, tuple((t, round(a, 6)) for t, a in g)
+
+
+def run_nocache(st) -> None:
+    n = len(NOCACHE_VECS)
+    for i in range(n):
+        for j in range(n):
+            if i == j:
+                continue
+            pdfs, viol, obs = check_nocache(i, j)
+            st.states += 1
+            st.transitions += 1
+            st.traces += 1
+            st.case(("nocache", i, j), nontrivial=True, outcome=obs)
+            for sig, code, exp, ob, what in viol:
+                if st.viol_counts[sig] >= st.MAX_VIOL_PER_SIG:
+                    st.viol_counts[sig] += 1
+                    continue
+                st.violation(sig, {"family": "nocache", "first": i, "second": j, "code": code}, exp, ob, what)
+
+
 def run_share(st) -> None:
     for enc, diff, order in share_docs():
         tables_changed()
@@ -1253,6 +1321,7 @@ def run_shard(shard, tier, st):
     elif fam == "share":
         run_share(st)
         run_mixed(st)
+        run_nocache(st)
     else:
         raise ValueError(shard)
 
@@ -1288,6 +1357,11 @@ def replay(case):
         for sig, code, exp, ob, what in viol:
             sig = indir_signature(slots, case["font"])
             out.append({"signature": sig, "expected": repr(exp), "observed": repr(ob)})
+    elif fam == "nocache":
+        _, viol, _ = check_nocache(case["first"], case["second"])
+        for sig, code, exp, ob, what in viol:
+            if code == case["code"]:
+                out.append({"signature": sig, "expected": repr(exp), "observed": repr(ob)})
     elif fam == "std14-doc":
         _, viol, _ = check_std14_doc(case["basefont"], case["encoding"])
         for sig, code, exp, ob, what in viol:
